@@ -560,6 +560,25 @@ fn gen_sample(r: &mut Rng, l: &mut TrackLaws, tag: u32, hostile: bool) -> Sample
 }
 
 /// Generate one muxing history. `kinds` restricts the media kinds (swarm knob).
+/// What a caller does when write_end fails because the sink failed: perhaps a few more samples,
+/// then write_end again. Only executed if the first write_end did fail (the history ends with
+/// the first write_end that succeeds).
+pub fn append_retry_tail(sc: &mut MuxScenario, r: &mut Rng) {
+    let writes: Vec<Op> = sc.ops.iter().filter(|o| matches!(o, Op::Write { .. })).cloned().collect();
+    let extra = if writes.is_empty() { 0 } else { r.below(3) };
+    for k in 0..extra {
+        if let Op::Write { track_id, s } = &writes[r.usize_below(writes.len())] {
+            let mut s = s.clone();
+            if let Payload::Stamp { len, tag } = &mut s.payload {
+                *len = (*len).min(4096);
+                *tag = 1_000_000 + k as u32;
+            }
+            sc.ops.push(Op::Write { track_id: *track_id, s });
+        }
+    }
+    sc.ops.push(Op::End);
+}
+
 pub fn gen_mux(r: &mut Rng, o: &GenOpts) -> MuxScenario {
     // ---- knobs
     let cfg = gen_movie_cfg(r, o);
@@ -689,7 +708,9 @@ pub fn gen_mux(r: &mut Rng, o: &GenOpts) -> MuxScenario {
     };
     // transient sink fault (valid-domain histories only; C17 plants its own)
     let fault = if !o.hostile && r.chance(1, 10) {
-        let seq = r.below(3 * ops.len() as u64 + 16);
+        // a third of the faults aim at the tail of the history (write_end makes several dozen
+        // stream calls per track; the exact count is only known after a run)
+        let seq = if r.chance(1, 3) { 2 * ops.len() as u64 + r.below(40 * (1 + ntracks as u64)) } else { r.below(3 * ops.len() as u64 + 16) };
         let f = match r.below(4) {
             0 => crate::simdisk::Fault::Zero,
             1 => crate::simdisk::Fault::Err(crate::simdisk::ErrK::StorageFull),
@@ -708,6 +729,9 @@ pub fn gen_mux(r: &mut Rng, o: &GenOpts) -> MuxScenario {
         preexisting,
         fault,
     };
+    if sc.fault.is_some() && r.chance(1, 2) {
+        append_retry_tail(&mut sc, r);
+    }
     if !o.hostile {
         fit_durations(&mut sc);
     }
